@@ -1,4 +1,11 @@
 import CoxeterVerif.Lemmas.CovariancePolytri
+import CoxeterVerif.Lemmas.CovarianceInside3D
+import CoxeterVerif.Lemmas.CovarianceCircle
+import CoxeterVerif.Lemmas.CovarianceBalls
+import CoxeterVerif.Lemmas.CovarianceDts
+import CoxeterVerif.Lemmas.CovarianceFF
+import CoxeterVerif.Lemmas.CovarianceSteiner
+import CoxeterVerif.Lemmas.CovarianceTol
 import CoxeterVerif.Props.C01
 import CoxeterVerif.Props.C02
 import CoxeterVerif.Props.C14
@@ -445,6 +452,286 @@ theorem dts_branches_agree (p1 p2 : P2 ℝ) (a α d0 : ℝ) (hd0 : 0 < d0)
     linear_combination (Real.sin α * Real.sin α + Real.cos α * Real.cos α) * hline
   · intro _ _; exact hcos'
 
+
+/-! ## 5. The other model functions under a proper similarity `g : x ↦ k R x + t`
+
+`Sim` (`Lemmas/CovarianceSim.lean`) is the group of the property statement as one object: `g.pt` acts on points,
+`g.vec` on differences, `g.dir` on unit normals; `g.Proper` = `0 < k` ∧ `IsRot R`.  The generators
+`Sim.scaling k`, `Sim.translation t`, `Sim.rotation R` are proper (for `k > 0`, `IsRot R`), so every statement
+below contains the pure rotation, translation and scaling laws and all their compositions. -/
+
+/-- **C09, convex containment**: plane rows move as `(n, d) ↦ (R n, k d − (R n)·t)`, every point–plane distance is
+multiplied by `k`, and `ConvexPolyhedron.is_inside` (single point and NumPy batch) is invariant — for every
+list of planes and points. -/
+theorem inside_convex_sim {g : Sim} (hg : g.Proper) (eqs : List (Inside3D.Plane ℝ)) (p : V3 ℝ) (pts : List (V3 ℝ)) :
+    Inside3D.CP.planeDists (eqs.map g.plane) (g.pt p) = (Inside3D.CP.planeDists eqs p).map (g.k * ·) ∧
+    Inside3D.CP.isInside1 (eqs.map g.plane) (g.pt p) = Inside3D.CP.isInside1 eqs p ∧
+    Inside3D.CP.isInside (eqs.map g.plane) (pts.map g.pt) = Inside3D.CP.isInside eqs pts :=
+  ⟨Sim.planeDists hg eqs p, Sim.cp_isInside1 hg eqs p, Sim.cp_isInside hg eqs pts⟩
+
+/-- **C09, general-polyhedron containment (decision)**: for every closed surface bounding a tetrahedralised
+solid and every query point in general position (`offCone`, hypotheses on `x` only), `Polyhedron.is_inside`
+gives the same answer for `g(x), g(p)` — under rotations too, although the coded winding summand is made of
+coordinate signs (`inside_poly_summand_rot_fails`). -/
+theorem inside_poly_sim {g : Sim} (hg : g.Proper) {S : List (Tri ℝ)} {Ts : List (Tet ℝ)}
+    (h : ChainEq S (Ts.flatMap Tet.bdry))
+    (hor : ∀ T ∈ Ts, 0 ≤ Spec.In3D.orient T.a T.b T.c T.d) (p : V3 ℝ) (hoff : Spec.In3D.offCone Ts p = true) :
+    Inside3D.Poly.isInside1 (S.map g.tri) (g.pt p) = Inside3D.Poly.isInside1 S p :=
+  Sim.poly_isInside1 hg h hor p hoff
+
+/-- the winding summand is invariant under translations and positive scalings for EVERY triangle and point -/
+theorem inside_poly_summand_trans_scale {k : ℝ} (hk : 0 < k) (t p : V3 ℝ) (u : Tri ℝ) :
+    Inside3D.Poly.contribution (V3.smul k p + t) (u.map fun x => V3.smul k x + t) = Inside3D.Poly.contribution p u :=
+  Inside3D.Poly.contribution_trans_scale hk t p u
+
+/-- **…and is NOT rotation invariant term by term** (quarter turn about `z`, one triangle) -/
+theorem inside_poly_summand_rot_fails :
+    ¬ (∀ (R : M3 ℝ), IsRot R → ∀ (p : V3 ℝ) (u : Tri ℝ),
+        Inside3D.Poly.contribution (M3.mulVec R p) (u.map (M3.mulVec R)) = Inside3D.Poly.contribution p u) :=
+  Inside3D.Poly.contribution_rot_fails
+
+/-- **C09, sphere / ellipsoid / spheropolyhedron containment**: sphere under every proper similarity; ellipsoid
+(axis-aligned model) under translations, positive scalings and the quarter turn that swaps two semi-axes;
+spheropolyhedron (core planes, candidate faces, extruded prisms, cylinders, caps) under every proper similarity
+with the rounding radius scaled along. -/
+theorem inside_round_sim {g : Sim} (hg : g.Proper) (r : ℝ) (c p : V3 ℝ) {k : ℝ} (hk : 0 < k) (t : V3 ℝ)
+    (a b c' : ℝ) (cen : V3 ℝ) (eqs : List (Inside3D.Plane ℝ)) (faces : List (List (V3 ℝ)))
+    (extruded : List (List (Inside3D.Plane ℝ))) :
+    Inside3D.Sphere.isInside1 (g.k * r) (g.pt c) (g.pt p) = Inside3D.Sphere.isInside1 r c p ∧
+    Inside3D.Ellipsoid.isInside1 (k * a) (k * b) (k * c') (V3.smul k cen + t) (V3.smul k p + t)
+      = Inside3D.Ellipsoid.isInside1 a b c' cen p ∧
+    Inside3D.Ellipsoid.isInside1 b a c' ⟨-cen.y, cen.x, cen.z⟩ ⟨-p.y, p.x, p.z⟩ = Inside3D.Ellipsoid.isInside1 a b c' cen p ∧
+    Inside3D.Sphero.isInside1 (g.k * r) (eqs.map g.plane) (faces.map (List.map g.pt))
+        (extruded.map (List.map g.plane)) (g.pt p) = Inside3D.Sphero.isInside1 r eqs faces extruded p :=
+  ⟨Sim.sphere_isInside1 hg r c p, Sim.ellipsoid_isInside1 hk t a b c' cen p,
+   Sim.ellipsoid_isInside1_quarter a b c' cen p, Sim.sphero_isInside1 hg r eqs faces extruded p⟩
+
+/-- **C09, `Circle.is_inside`**: in-plane part covariant under every similarity that keeps the `z` direction;
+the out-of-plane switch `np.isclose(z, 0)` is absolute, so the decision is covariant exactly when the offset and
+its image are on the same side of `1e-8` — always for points of the circle's plane, always for rigid motions,
+and for a scale factor `k` whenever `|dz| ≤ 1e-8·min(1, 1/k)` or `|dz| > 1e-8·max(1, 1/k)`. -/
+theorem inside_circle_sim_partial {g : Sim} (hg : g.Proper) (hz : Inside2D.KeepsZ g) (r : ℝ) (c p : V3 ℝ) :
+    ((|g.k * (p - c).z| ≤ 1 / 100000000 ↔ |(p - c).z| ≤ 1 / 100000000) →
+      Inside2D.Circle.isInside1 (g.k * r) (g.pt c) (g.pt p) = Inside2D.Circle.isInside1 r c p) ∧
+    (p.z = c.z → Inside2D.Circle.isInside1 (g.k * r) (g.pt c) (g.pt p) = Inside2D.Circle.isInside1 r c p) ∧
+    ((|(p - c).z| ≤ 1 / 100000000 * Min.min 1 (1 / g.k) ∨ 1 / 100000000 * Max.max 1 (1 / g.k) < |(p - c).z|) →
+      Inside2D.Circle.isInside1 (g.k * r) (g.pt c) (g.pt p) = Inside2D.Circle.isInside1 r c p) :=
+  ⟨Inside2D.circle_isInside1_sim hg hz r c p, Inside2D.circle_isInside1_inplane hg hz r c p,
+   fun h => Inside2D.circle_isInside1_sim hg hz r c p (Inside2D.isclose_window_scale hg.kpos h)⟩
+
+/-- **the absolute `isclose(z, 0)` window breaks scale covariance inside the property's range** (unit circle,
+point `2·10⁻⁸` above the centre, scale `1/10`) -/
+theorem inside_circle_scale_fails :
+    ¬ (∀ (k : ℝ), 0 < k → ∀ (r : ℝ) (c p : V3 ℝ),
+        Inside2D.Circle.isInside1 (k * r) (V3.smul k c) (V3.smul k p) = Inside2D.Circle.isInside1 r c p) :=
+  Inside2D.circle_inside_scale_fails
+
+/-- **`Ellipse.is_inside` (the coded box test)**: translations and positive scalings under the same window
+condition; the quarter turn mapping the ellipse `(a, b)` to `(b, a)` does NOT preserve it (C06 finding). -/
+theorem inside_ellipse_partial {k : ℝ} (hk : 0 < k) (t : V3 ℝ) (a b : ℝ) (c p : V3 ℝ)
+    (hwin : |k * (p - c).z| ≤ 1 / 100000000 ↔ |(p - c).z| ≤ 1 / 100000000) :
+    Inside2D.Ellipse.isInside1 (k * a) (k * b) (V3.smul k c + t) (V3.smul k p + t) = Inside2D.Ellipse.isInside1 a b c p :=
+  Inside2D.ellipse_isInside1_trans_scale hk t a b c p hwin
+
+theorem inside_ellipse_quarter_fails :
+    ¬ (∀ (a b : ℝ) (c p : V3 ℝ),
+        Inside2D.Ellipse.isInside1 b a ⟨-c.y, c.x, c.z⟩ ⟨-p.y, p.x, p.z⟩ = Inside2D.Ellipse.isInside1 a b c p) :=
+  Inside2D.ellipse_inside_quarter_fails
+
+/-- **C09, centred balls**: `minimal_centered_bounding_*`, `maximal_centered_bounded_sphere` (with its
+`ValueError`), `maximal_centered_bounded_circle`: centre moves with the shape, radius × k, same error. -/
+theorem balls_centred_sim {g : Sim} (hg : g.Proper) (verts : List (V3 ℝ)) (c : V3 ℝ) (eqs : List (V3 ℝ × ℝ)) :
+    Balls.minimalCenteredBounding (verts.map g.pt) (g.pt c) = Balls.mapRes g (Balls.minimalCenteredBounding verts c) ∧
+    Balls.maximalCenteredBoundedSphere (eqs.map (Balls.planeB g)) (g.pt c)
+      = Balls.mapRes g (Balls.maximalCenteredBoundedSphere eqs c) ∧
+    Balls.maximalCenteredBoundedCircle (verts.map g.pt) (g.pt c)
+      = Balls.mapRes g (Balls.maximalCenteredBoundedCircle verts c) :=
+  ⟨Balls.minimalCenteredBounding_sim hg verts c, Balls.maximalCenteredBoundedSphere_sim hg eqs c,
+   Balls.maximalCenteredBoundedCircle_sim hg verts c⟩
+
+/-- **C09, circum- and in-balls**: with the least-squares solution and residual of the moved system (the residual
+acquires `k⁴` / `k²`: `Balls.sumSq_circum_sim`, `Balls.sumSq_in_sim`) the decision ball / `RuntimeError` /
+`ValueError` is the same and the ball moves with the shape: the repaired guards `atol = 1e-8·size²` are scale free. -/
+theorem balls_circum_in_sim {g : Sim} (hg : g.Proper) (verts : List (V3 ℝ)) (hne : verts ≠ []) (n x : V3 ℝ) (r : ℝ)
+    (resids : List ℝ) (thr : Nat) :
+    Balls.circumsphere (verts.map g.pt) (g.vec x) (resids.map (g.k ^ 4 * ·)) = Balls.mapRes g (Balls.circumsphere verts x resids) ∧
+    Balls.circumcircle (verts.map g.pt) (g.dir n) (g.vec x) (resids.map (g.k ^ 4 * ·))
+      = Balls.mapRes g (Balls.circumcircle verts n x resids) ∧
+    Balls.inBall thr (verts.map g.pt) (g.pt x) (g.k * r) (resids.map (g.k ^ 2 * ·))
+      = Balls.mapRes g (Balls.inBall thr verts x r resids) ∧
+    Balls.sumSq (Balls.circumSystemSphere (verts.map g.pt)) (g.vec x) r
+      = g.k ^ 4 * Balls.sumSq (Balls.circumSystemSphere verts) x r :=
+  ⟨Balls.circumsphere_sim hg verts hne x resids, Balls.circumcircle_sim hg verts hne n x resids,
+   Balls.inBall_sim hg thr verts hne x r resids, Balls.sumSq_circum_sim hg verts x r⟩
+
+/-- **C09, verification of miniball's answer** (`_is_minimal_bounding_ball`): containment slack, boundary band and
+the `nnls` residual are relative — the test is invariant under every proper similarity. -/
+theorem balls_minimal_check_sim {g : Sim} (hg : g.Proper) (τc τb τr : ℝ)
+    (nnls nnls' : List (V3 ℝ) → V3 ℝ → ℝ → List ℝ × ℝ) (points : List (V3 ℝ)) (c : V3 ℝ) (r2 : ℝ)
+    (hn : (nnls' ((Balls.onBoundary τb points c r2).map g.pt) (g.pt c) (g.k ^ 2 * r2)).2
+            = (nnls (Balls.onBoundary τb points c r2) c r2).2) :
+    Balls.isMinimalBoundingBallTol τc τb τr nnls' (points.map g.pt) (g.pt c) (g.k ^ 2 * r2)
+      = Balls.isMinimalBoundingBallTol τc τb τr nnls points c r2 :=
+  Balls.isMinimalBoundingBallTol_sim hg τc τb τr nnls nnls' points c r2 hn
+
+/-- **C09, `ConvexPolygon.distance_to_surface`, the whole function**: for every strictly convex
+counter-clockwise polygon, every centre strictly inside and every angle, the moved polygon at the shifted angle
+returns `k` times the distance — start vertex, angular bin and formula branch (slope 0 / ∞ / generic) may all
+differ between `x` and `g(x)`. -/
+theorem dts_polygon_sim (g : Sim2) (hk : 0 < g.k) (V : List (P2 ℝ)) (c : P2 ℝ) (θ : ℝ) (hne : V ≠ [])
+    (hconv : Spec.strictConvexCCW V) (hin : Spec.strictlyInsideCCW V c)
+    (hcos : ∀ e ∈ Spec.edgesOf V, e.1.x ≠ e.2.x → e.1.y ≠ e.2.y → Real.cos θ ≠ 0)
+    (hcos' : ∀ e ∈ Spec.edgesOf (V.map g.act), e.1.x ≠ e.2.x → e.1.y ≠ e.2.y → Real.cos (θ + g.α) ≠ 0) :
+    DTS.cpolyDtsFrom M2.id false (V.map g.act) (g.act c) (θ + g.α)
+      = (DTS.cpolyDtsFrom M2.id false V c θ).map (g.k * ·) :=
+  g.dts_sim hk V c θ hne hconv hin hcos hcos'
+
+/-- **C09, form factor under rotation** `F_{RP}(Rq) = F_P(q)`: every edge term is invariant; polygon (planar,
+unit normal; both branches, the projection axis of `signed_area` may change), polyhedron (planar faces with unit
+normals), sphere. -/
+theorem ff_rot {R : M3 ℝ} (hR : IsRot R) (v0 : V3 ℝ) (rest : List (V3 ℝ)) (n qv : V3 ℝ) (rho : ℝ)
+    (hplanar : ∀ v ∈ v0 :: rest, V3.dot (v - v0) n = 0) (hunit : V3.dot n n = 1)
+    (faces : List (FF.Face ℝ)) (vol r : ℝ) (c : V3 ℝ)
+    (hf : ∀ f ∈ faces, V3.norm f.normal = 1 ∧ ∃ v0 rest, f.verts = v0 :: rest ∧
+      ∀ v ∈ v0 :: rest, V3.dot (v - v0) f.normal = 0) :
+    (∀ qp qsq vw, FF.edgeTerm (M3.mulVec R n) (M3.mulVec R qp) qsq (Prod.map (M3.mulVec R) (M3.mulVec R) vw)
+      = FF.edgeTerm n qp qsq vw) ∧
+    FF.signedArea ((v0 :: rest).map (M3.mulVec R)) (M3.mulVec R n) = FF.signedArea (v0 :: rest) n ∧
+    FF.polygonFF ((v0 :: rest).map (M3.mulVec R)) (M3.mulVec R n) (M3.mulVec R qv) rho = FF.polygonFF (v0 :: rest) n qv rho ∧
+    FF.polyhedronFF (faces.map (FF.Face.rot R)) vol (M3.mulVec R qv) rho = FF.polyhedronFF faces vol qv rho ∧
+    FF.sphereFF r (M3.mulVec R c) (M3.mulVec R qv) rho = FF.sphereFF r c qv rho :=
+  ⟨fun qp qsq vw => FF.edgeTerm_rot hR n qp qsq vw, FF.signedArea_rot hR v0 rest n hplanar hunit,
+   FF.polygonFF_rot hR v0 rest n qv rho hplanar hunit, FF.polyhedronFF_rot hR faces vol qv rho hf,
+   FF.sphereFF_rot hR r c qv rho⟩
+
+/-- **C09, form factor under scaling** `F_{sP}(q/s) = s^d F_P(q)` (`d = 2` polygon, `3` polyhedron / sphere),
+`_partial`: provided `|q|²` (and, for polygons / faces, the in-plane `|q∥|²`) and the same divided by `s²` are on
+the same side of the absolute switch `np.isclose(q², 0)`. -/
+theorem ff_scale_partial {s : ℝ} (hs : 0 < s) (vs : List (V3 ℝ)) (n qv : V3 ℝ) (rho r : ℝ) (c : V3 ℝ)
+    (faces : List (FF.Face ℝ)) (vol : ℝ)
+    (hwinP : FF.isCloseZero (V3.dot (FF.project n qv) (FF.project n qv) / s ^ 2)
+              = FF.isCloseZero (V3.dot (FF.project n qv) (FF.project n qv)))
+    (hwinS : FF.isCloseZero (V3.dot qv qv / s ^ 2) = FF.isCloseZero (V3.dot qv qv))
+    (hf : ∀ f ∈ faces, FF.isCloseZero (V3.dot (FF.project (V3.sdiv f.normal (V3.norm f.normal)) qv)
+                (FF.project (V3.sdiv f.normal (V3.norm f.normal)) qv) / s ^ 2)
+              = FF.isCloseZero (V3.dot (FF.project (V3.sdiv f.normal (V3.norm f.normal)) qv)
+                (FF.project (V3.sdiv f.normal (V3.norm f.normal)) qv))) :
+    FF.polygonFF (vs.map (V3.smul s)) n (V3.smul (1 / s) qv) rho = Cx.smul (s ^ 2) (FF.polygonFF vs n qv rho) ∧
+    FF.polyhedronFF (faces.map (FF.Face.scale s)) (s ^ 3 * vol) (V3.smul (1 / s) qv) rho
+      = Cx.smul (s ^ 3) (FF.polyhedronFF faces vol qv rho) ∧
+    FF.sphereFF (s * r) (V3.smul s c) (V3.smul (1 / s) qv) rho = Cx.smul (s ^ 3) (FF.sphereFF r c qv rho) :=
+  ⟨FF.polygonFF_scale hs vs n qv rho hwinP, FF.polyhedronFF_scale hs faces vol qv rho hwinS hf,
+   FF.sphereFF_scale hs r c qv rho hwinS⟩
+
+/-- **the absolute `isclose(q², 0)` window breaks scale covariance for EVERY sphere** whenever `q` is outside the
+window and `q/s` inside (known finding); witness in the property's range: unit sphere, `|q| = 0.05`, `s = 1000`. -/
+theorem ff_scale_window_fails {s : ℝ} (hs : 0 < s) (r : ℝ) (qv : V3 ℝ) (hr : 0 < r)
+    (hout : FF.isCloseZero (V3.dot qv qv) = false) (hin : FF.isCloseZero (V3.dot qv qv / s ^ 2) = true) :
+    ¬ (FF.sphereFF (s * r) (V3.smul s ⟨0, 0, 0⟩) (V3.smul (1 / s) qv) 1
+        = Cx.smul (s ^ 3) (FF.sphereFF r ⟨0, 0, 0⟩ qv 1)) :=
+  FF.sphereFF_scale_window_fails hs r qv hr hout hin
+
+theorem ff_scale_fails :
+    ¬ (FF.sphereFF ((1000:ℝ) * 1) (V3.smul 1000 ⟨0, 0, 0⟩) (V3.smul (1 / 1000) ⟨3 / 100, 4 / 100, 0⟩) 1
+        = Cx.smul (1000 ^ 3) (FF.sphereFF 1 ⟨0, 0, 0⟩ ⟨3 / 100, 4 / 100, 0⟩ 1)) :=
+  FF.sphereFF_scale_fails
+
+/-- **C09, Steiner quantities**: every loop item `(L, φ)` of the curvature code becomes `(k L, φ)` (same
+`IndexError` / `ValueError` otherwise); mean curvature × k; spheropolyhedron volume × k³, surface area × k², mean
+curvature × k with the rounding radius × k; spheropolygon perimeter × k, area × k². -/
+theorem steiner_sim {g : Sim} (hg : g.Proper) (c : Steiner.Core ℝ) (r : ℝ) (vs : List (V3 ℝ)) (polyArea : ℝ) :
+    Steiner.CP.edgeTerms (Steiner.simCore g c) = Steiner.mapOk (Steiner.simEdges g.k) (Steiner.CP.edgeTerms c) ∧
+    Steiner.CP.meanCurvature (Steiner.simCore g c) = Steiner.mapOk (g.k * ·) (Steiner.CP.meanCurvature c) ∧
+    Steiner.SpheroPolyhedron.volume (Steiner.simCore g c) (g.k * r)
+      = Steiner.mapOk (g.k ^ 3 * ·) (Steiner.SpheroPolyhedron.volume c r) ∧
+    Steiner.SpheroPolyhedron.surfaceArea (Steiner.simCore g c) (g.k * r)
+      = Steiner.mapOk (g.k ^ 2 * ·) (Steiner.SpheroPolyhedron.surfaceArea c r) ∧
+    Steiner.SpheroPolyhedron.meanCurvature (Steiner.simCore g c) (g.k * r)
+      = Steiner.mapOk (g.k * ·) (Steiner.SpheroPolyhedron.meanCurvature c r) ∧
+    Steiner.SpheroPolygon.perimeter (vs.map g.pt) (g.k * r) = g.k * Steiner.SpheroPolygon.perimeter vs r ∧
+    Steiner.SpheroPolygon.area (vs.map g.pt) (g.k ^ 2 * polyArea) (g.k * r)
+      = g.k ^ 2 * Steiner.SpheroPolygon.area vs polyArea r :=
+  ⟨Steiner.edgeTerms_sim hg c, Steiner.meanCurvature_sim hg c, (Steiner.sphero_sim hg c r).1,
+   (Steiner.sphero_sim hg c r).2.1, (Steiner.sphero_sim hg c r).2.2, (Steiner.spheropolygon_sim hg vs polyArea r).1,
+   (Steiner.spheropolygon_sim hg vs polyArea r).2.2⟩
+
+/-- **dimensionless descriptors are invariant** (`tau`, `asphericity`, `iq` in 3-D and 2-D) -/
+theorem descriptors_sim {k : ℝ} (hk : k ≠ 0) (mc A V P : ℝ) :
+    Steiner.CP.tauOf (k * mc) (k ^ 2 * A) = Steiner.CP.tauOf mc A ∧
+    Steiner.CP.asphericityOf (k * mc) (k ^ 2 * A) (k ^ 3 * V) = Steiner.CP.asphericityOf mc A V ∧
+    Steiner.Shape3D.iq (k ^ 3 * V) (k ^ 2 * A) = Steiner.Shape3D.iq V A ∧
+    Steiner.Shape2D.iq (k ^ 2 * A) (k * P) = Steiner.Shape2D.iq A P :=
+  Steiner.descriptors_sim hk mc A V P
+
+/-! ## 6. The absolute tolerances still in the Python: exact ranges of covariance, witnesses of failure -/
+
+/-- **`Polygon.__init__`, decisions that are covariant**: the first-corner normal rotates with the shape, the
+orthogonality test of a supplied normal is invariant, and an exactly planar polygon passes the coplanarity loop at
+every scale, orientation and position. -/
+theorem ctor_decisions_sim {g : Sim} (hg : g.Proper) (verts : List (V3 ℝ)) (h3 : 3 ≤ verts.length)
+    (computed : Option (V3 ℝ)) (nv n : V3 ℝ) {ptol : ℝ} (hp : 0 ≤ ptol)
+    (hplanar : ∀ v ∈ verts, V3.dot n v = V3.dot n (verts.getD 0 V3.zero)) :
+    C15.cornerNormal (verts.map g.pt) = (C15.cornerNormal verts).map g.dir ∧
+    C15.chooseNormal (computed.map g.dir) (some (g.dir nv)) =
+      (match C15.chooseNormal computed (some nv) with
+       | .ok o => .ok (o.map g.dir)
+       | .error e => .error e) ∧
+    C15.coplanar (g.dir n) (verts.map g.pt) ptol = true :=
+  ⟨C15.cornerNormal_sim hg verts h3, C15.chooseNormal_sim hg computed nv,
+   C15.coplanar_sim_planar hg n verts (by intro h; rw [h] at h3; simp at h3) hp hplanar⟩
+
+/-- **the coplanarity loop `np.isclose(n·v, d, planar_tolerance)`, exact range**: at scale `k` a polygon passes iff
+every out-of-plane deviation is `≤ 1e-8/k + ptol·|d|` (`d` = distance of the plane from the ORIGIN). -/
+theorem ctor_coplanar_scale_iff {k : ℝ} (hk : 0 < k) (n : V3 ℝ) (verts : List (V3 ℝ)) (hne : verts ≠ []) (ptol : ℝ) :
+    C15.coplanar n (verts.map (V3.smul k)) ptol = true ↔
+      ∀ v ∈ verts, |V3.dot n v - V3.dot n (verts.getD 0 V3.zero)|
+        ≤ 1 / 100000000 / k + ptol * |V3.dot n (verts.getD 0 V3.zero)| :=
+  C15.coplanar_scale_iff hk n verts hne ptol
+
+/-- **…hence not scale covariant and not translation covariant** for polygons that are not exactly planar: the
+quadrilateral bent by `10⁻⁷` of its size is rejected at size 1 at the origin, accepted at size `10⁻²`, and accepted
+one unit away from the origin. -/
+theorem ctor_coplanar_scale_fails :
+    ¬ (∀ (k : ℝ), 0 < k → ∀ (n : V3 ℝ) (verts : List (V3 ℝ)) (ptol : ℝ),
+        C15.coplanar n (verts.map (V3.smul k)) ptol = C15.coplanar n verts ptol) := C15.coplanar_scale_fails
+
+theorem ctor_coplanar_translate_fails :
+    ¬ (∀ (t n : V3 ℝ) (verts : List (V3 ℝ)) (ptol : ℝ),
+        C15.coplanar n (verts.map (· + t)) ptol = C15.coplanar n verts ptol) := C15.coplanar_translate_fails
+
+/-- **`merge_faces(atol=1e-8, rtol=1e-5)`**: exact form of the decision at scale `k`; coplanar neighbours (equal
+rows) are merged at every scale. -/
+theorem merge_allclose_scale {k : ℝ} (hk : 0 < k) (atol rtol : ℝ) (ha : 0 ≤ atol) (hr : 0 ≤ rtol) (n1 n2 : V3 ℝ)
+    (d1 d2 : ℝ) :
+    (Struct.allclose atol rtol (n1, k * d1) (n2, k * d2) = true ↔
+      (Struct.isclose n1.x n2.x rtol atol = true ∧ Struct.isclose n1.y n2.y rtol atol = true ∧
+        Struct.isclose n1.z n2.z rtol atol = true ∧ |d1 - d2| ≤ atol / k + rtol * |d2|)) ∧
+    Struct.allclose atol rtol (n1, k * d1) (n1, k * d1) = true :=
+  ⟨Struct.allclose_scale_iff hk atol rtol n1 n2 d1 d2, Struct.allclose_self_scale atol rtol ha hr n1 d1⟩
+
+theorem merge_allclose_scale_fails :
+    ¬ (∀ (k : ℝ), 0 < k → ∀ (n1 n2 : V3 ℝ) (d1 d2 : ℝ),
+        Struct.allclose (1 / 100000000) (1 / 100000) (n1, k * d1) (n2, k * d2)
+          = Struct.allclose (1 / 100000000) (1 / 100000) (n1, d1) (n2, d2)) := Struct.allclose_scale_fails
+
+theorem merge_allclose_translate_fails :
+    ¬ (∀ (t : V3 ℝ) (n1 n2 : V3 ℝ) (d1 d2 : ℝ),
+        Struct.allclose (1 / 100000000) (1 / 100000) (n1, d1 - V3.dot n1 t) (n2, d2 - V3.dot n2 t)
+          = Struct.allclose (1 / 100000000) (1 / 100000) (n1, d1) (n2, d2)) := Struct.allclose_translate_fails
+
+/-- **`_combine_simplices(tol=2e-15)`**: identical rows are combined and rows whose normals differ by `tol` in a
+component are kept apart at EVERY scale (what Qhull's output consists of); in general the decision is scale
+dependent. -/
+theorem combine_simplices_scale {tol : ℝ} (ht : 0 < tol) (e : Struct.Eqn ℝ) (n1 n2 : V3 ℝ) (d1 d2 k : ℝ)
+    (h : tol ≤ |n1.x - n2.x| ∨ tol ≤ |n1.y - n2.y| ∨ tol ≤ |n1.z - n2.z|) :
+    Struct.eqClose tol e e = true ∧ Struct.eqClose tol (n1, k * d1) (n2, k * d2) = false :=
+  ⟨Struct.eqClose_self ht e, Struct.eqClose_scale_of_normals n1 n2 d1 d2 h k⟩
+
+theorem combine_simplices_scale_fails :
+    ¬ (∀ (k : ℝ), 0 < k → ∀ (n1 n2 : V3 ℝ) (d1 d2 : ℝ),
+        Struct.eqClose (2 / 1000000000000000) (n1, k * d1) (n2, k * d2)
+          = Struct.eqClose (2 / 1000000000000000) (n1, d1) (n2, d2)) := Struct.eqClose_scale_fails
+
 /-! ## non-vacuity -/
 
 /-- the unit square, counter-clockwise in the xy-plane -/
@@ -485,5 +772,60 @@ example : Spec.cross (⟨1, 1⟩ : P2 ℝ) ⟨-1, 1⟩ ≠ 0 ∧
 that of the unit square does (the defect repaired in /repo made the left side an error) -/
 example : Polytri.triangulate (scV (1/1000) exSq9) = Polytri.mapRes (1/1000) (Polytri.triangulate exSq9) :=
   scale_polytri (by norm_num) exSq9
+
+/-- the three generators of the property statement are proper similarities; so is their composition
+`x ↦ 2 · exRot x + (1, 2, 3)` -/
+example : (Sim.scaling 2).Proper ∧ (Sim.translation ⟨1, 2, 3⟩).Proper ∧ (Sim.rotation exRot).Proper ∧
+    (⟨2, exRot, ⟨1, 2, 3⟩⟩ : Sim).Proper := by
+  have h : IsRot exRot := by constructor <;> simp only [exRot, M3.det] <;> norm_num
+  exact ⟨Sim.scaling_proper (by norm_num), Sim.translation_proper _, Sim.rotation_proper h, ⟨by norm_num, h⟩⟩
+
+/-- `inside_poly_sim`: its hypotheses hold for the unit tetrahedron of C01 and the point `(1/5, 1/5, 1/5)` -/
+example : ChainEq exT.bdry ([exT].flatMap Tet.bdry) ∧ (∀ T ∈ [exT], 0 ≤ Spec.In3D.orient T.a T.b T.c T.d) ∧
+    Spec.In3D.offCone [exT] ⟨1/5, 1/5, 1/5⟩ = true := by
+  refine ⟨by simpa using ChainEq.refl _, ?_, ?_⟩
+  · intro T hT
+    simp only [List.mem_singleton] at hT; subst hT
+    unfold Spec.In3D.orient exT; unfold_model; norm_num
+  · unfold Spec.In3D.offCone Spec.In3D.offApex Spec.In3D.inTet Spec.In3D.bary Spec.In3D.orient exT
+    simp only [List.all_cons, List.all_nil, Bool.and_true]
+    unfold_model
+    norm_num [Scalar.eqb]
+
+/-- `dts_polygon_sim`: the axis-aligned rectangle `[-2,2] × [-1,1]` (all four edges in the slope-0 / slope-∞
+branches) measured from `(1/2, 1/4)`, and its copy rotated by `α = 1`, scaled by 3 and moved (all four edges in the
+generic branch): the hypotheses on `x` hold for every `θ` -/
+example : Spec.strictConvexCCW [(⟨2, -1⟩ : P2 ℝ), ⟨2, 1⟩, ⟨-2, 1⟩, ⟨-2, -1⟩] ∧
+    Spec.strictlyInsideCCW [(⟨2, -1⟩ : P2 ℝ), ⟨2, 1⟩, ⟨-2, 1⟩, ⟨-2, -1⟩] ⟨1/2, 1/4⟩ ∧
+    (0:ℝ) < (⟨3, 1, ⟨5, -7⟩⟩ : Sim2).k := by
+  refine ⟨⟨by simp; norm_num, ?_⟩, ?_, by norm_num⟩
+  · intro e he w hw h1 h2
+    simp only [Spec.edgesOf, List.drop_succ_cons, List.drop_zero, List.take_succ_cons, List.take_zero,
+      List.cons_append, List.nil_append, List.zip_cons_cons, List.zip_nil_right, List.mem_cons,
+      List.not_mem_nil, or_false] at he hw
+    rcases he with rfl | rfl | rfl | rfl <;> rcases hw with rfl | rfl | rfl | rfl <;>
+      first
+        | exact absurd rfl h1
+        | exact absurd rfl h2
+        | (simp [Spec.cross, Scalar.lit]; try norm_num)
+  · intro e he
+    simp only [Spec.edgesOf, List.drop_succ_cons, List.drop_zero, List.take_succ_cons, List.take_zero,
+      List.cons_append, List.nil_append, List.zip_cons_cons, List.zip_nil_right, List.mem_cons,
+      List.not_mem_nil, or_false] at he
+    rcases he with rfl | rfl | rfl | rfl <;> (simp [Spec.cross, Scalar.lit]; try norm_num)
+
+/-- `ff_rot`: the unit square in the xy-plane with normal `ẑ` is planar with unit normal -/
+example : (∀ v ∈ exSq9, V3.dot (v - (⟨0, 0, 0⟩ : V3 ℝ)) ⟨0, 0, 1⟩ = 0) ∧ V3.dot (⟨0, 0, 1⟩ : V3 ℝ) ⟨0, 0, 1⟩ = 1 := by
+  refine ⟨?_, by simp [V3.dot]⟩
+  intro v hv
+  simp only [exSq9, List.mem_cons, List.not_mem_nil, or_false] at hv
+  rcases hv with rfl | rfl | rfl | rfl <;> simp [V3.dot]
+
+/-- `ctor_decisions_sim`: the unit square is exactly planar for `n = ẑ` -/
+example : ∀ v ∈ exSq9, V3.dot (⟨0, 0, 1⟩ : V3 ℝ) v = V3.dot (⟨0, 0, 1⟩ : V3 ℝ) (exSq9.getD 0 V3.zero) := by
+  intro v hv
+  simp only [exSq9, List.mem_cons, List.not_mem_nil, or_false] at hv
+  rcases hv with rfl | rfl | rfl | rfl <;> simp [V3.dot, exSq9]
+
 
 end
